@@ -8,7 +8,7 @@ checker `Bytecode.wfReason`, component by component.  See the summary at the end
 what is proved, under which hypotheses, and what is missing.
 -/
 namespace Cao.C10
-open Cao Cao.Compiler Cao.Bytecode
+open Cao Cao.Compiler Cao.Compiler.Wf Cao.Bytecode
 
 /-! ## from `compile` to the final compiler state -/
 
